@@ -100,6 +100,70 @@ def replay_dump(run, cfg):
     shutil.rmtree(d, ignore_errors=True)
 
 
+# ---- S -> I: wrapper objects, in-place edits, memoised matches (Wrappers.tla) ------------------
+def replay_wrappers(run, cfg):
+    """every history of Wrappers.tla that ends with a question is performed on real records and wrappers; the answer is
+    compared with what the specification says it must be: the class's verdict on the sequence the memo was computed from"""
+    import shutil
+    from Bio.Seq import Seq
+    from moclo.record import CircularRecord
+    from .. import scenario
+    rng = run.rng
+    G = gen.Geometry("GGTCTC", 1, 4)
+    up, down = "AATG", "GCTT"
+    valid = G.module(up, "ACGTAC", down, "TTAACA", rng)
+    k = len(valid) - 3                      # the origin moves into the upstream recognition site
+    seqs = {"valid": valid, "rotated": gen.rotate(valid, k), "broken": valid[:2] + "A" + valid[3:]}
+    cspecs = {"G": {"generic": "module", "enz": {"name": "BsaI"}}, "P": {"part": "module", "enz": {"name": "BsaI"}, "sig": [up, down]}}
+    clss = {c: classes.build(sp) for c, sp in cspecs.items()}
+    pub = lambda r: (r["valid"], r["up"], r["down"], r["tgt"], r["exc"])   # noqa: E731
+    truth = {(c, sname): pub(fresh_answer(cspecs[c], sq)) for c in cspecs for sname, sq in seqs.items()}
+    if not (truth[("G", "valid")][0] and truth[("G", "rotated")][0] and not truth[("G", "broken")][0]
+            and truth[("G", "valid")][3] == truth[("G", "rotated")][3]):
+        raise tlc.TLCError("the replay world of Wrappers.tla is not what it should be: %s" % truth)
+    d = tempfile.mkdtemp(prefix="verif-dump-")
+    path = os.path.join(d, "wrappers")
+    run.model_check("Wrappers", cfg, extra=["-dump", path], coverage=False)
+    init = None
+    n = 0
+    for st in tlaval.parse_dump(path + ".dump"):
+        hist = st["hist"]
+        if not hist:
+            init = st["seq"]
+            continue
+        if hist[-1][0] != "ask":
+            continue
+        recs = {r: CircularRecord(Seq(seqs[(init or {}).get(r, "valid")]), id=r, name=r) for r in ("r1", "r2")}
+        ws = []
+        res = None
+        for step in hist:
+            if step[0] == "new":
+                ws.append(clss[step[1]](recs[step[2]]))
+            elif step[0] == "ask":
+                res = scenario.query_wrapper(ws[step[1] - 1], clss[st["wcls"][step[1] - 1]])
+            elif step[0] == "edit":
+                recs[step[1]].seq = Seq(seqs[step[2]])
+            elif step[0] == "drop":
+                ws[step[1] - 1] = None
+        if st["last"]["ans"][0] == "?":
+            continue          # a stale wrapper (its record was edited after it had been asked): not specified
+        want = truth[(st["last"]["ans"][0], st["last"]["ans"][1])]
+        n += 1
+        run.distinct.add(("wrappers",) + tuple(map(tuple, hist)))
+        if n == 11:
+            run.add_sample({"wrapper_history": hist, "spec_answer": st["last"]["ans"], "impl_answer": {"valid": res["valid"], "up": dna.dec(res["up"])}})
+        if pub(res) != want:
+            run.violation("C06", "C06:ReplayedWrapperHistory", "C06:ReplayedWrapperHistory|%s" % ("first" if st["last"]["first"] else "again"),
+                          "history %s on real records and wrappers (G = generic BsaI module class, P = part class %s..%s; valid = %s, rotated = the same "
+                          "plasmid from another origin, broken = one site letter changed): the specification says the last question is answered with "
+                          "the verdict of class %s on the '%s' sequence %s, the code answered valid=%s up=%s down=%s target=%s exc=%s"
+                          % (hist, up, down, valid, st["last"]["ans"][0], st["last"]["ans"][1], want[:1], res["valid"], dna.dec(res["up"]),
+                             dna.dec(res["down"]), dna.dec(res["tgt"]), res["exc"]),
+                          {"kind": "replay-wrappers", "hist": hist, "init": init, "ans": st["last"]["ans"], "seed": run.seed if hasattr(run, "seed") else 0})
+    run.replayed["wrapper-histories"] = n
+    shutil.rmtree(d, ignore_errors=True)
+
+
 # ---- I -> S: histories over the kit classes, each in a forked child --------------------------
 def child_history(steps):
     """runs in a fresh child: steps = [(class spec, seq)] -> events"""
@@ -177,6 +241,10 @@ def run(tier, seed):
     # (M) + (S->I)
     replay_dump(run, "MC_Session.cfg" if q else "MC_Session_thorough.cfg")
     run.model_check("Session", "Neg_Session.cfg", expect_violation="C06_VerdictIndependent")
+    # wrapper objects with memoised matches over mutable records (Wrappers.tla), deviations refuted, histories replayed
+    replay_wrappers(run, "MC_Wrappers_quick.cfg" if q else "MC_Wrappers.cfg")
+    for neg in ("class-record", "class-circle", "record"):
+        run.model_check("Wrappers", "Neg_Wrappers_%s.cfg" % neg, expect_violation="C06_FirstAnswerIsCurrent")
     # (I->S) ordered pairs over the kit classes
     kcs = classes.kit_classes()
     members = {}
